@@ -40,8 +40,10 @@ pub fn decode_sequences(
     }
 
     if scratch.ll_rle.is_some() || scratch.ml_rle.is_some() || scratch.of_rle.is_some() {
+        vhit!(seq_with_rle_path);
         decode_sequences_with_rle(section, &mut br, scratch, target)
     } else {
+        vhit!(seq_without_rle_path);
         decode_sequences_without_rle(section, &mut br, scratch, target)
     }
 }
@@ -304,6 +306,7 @@ fn maybe_update_fse_tables(
 
     match modes.ll_mode() {
         ModeType::FSECompressed => {
+            vhit!(seq_ll_fse);
             let bytes = scratch.literal_lengths.build_decoder(source, LL_MAX_LOG)?;
             bytes_read += bytes;
 
@@ -313,6 +316,7 @@ fn maybe_update_fse_tables(
         }
         ModeType::RLE => {
             vprintln!("Use RLE ll table");
+            vhit!(seq_ll_rle);
             if source.is_empty() {
                 return Err(DecodeSequenceError::MissingByteForRleLlTable);
             }
@@ -324,6 +328,7 @@ fn maybe_update_fse_tables(
         }
         ModeType::Predefined => {
             vprintln!("Use predefined ll table");
+            vhit!(seq_ll_predefined);
             scratch.literal_lengths.build_from_probabilities(
                 LL_DEFAULT_ACC_LOG,
                 &Vec::from(&LITERALS_LENGTH_DEFAULT_DISTRIBUTION[..]),
@@ -332,6 +337,7 @@ fn maybe_update_fse_tables(
         }
         ModeType::Repeat => {
             vprintln!("Repeat ll table");
+            vhit!(seq_ll_repeat);
             /* Nothing to do */
         }
     };
@@ -340,6 +346,7 @@ fn maybe_update_fse_tables(
 
     match modes.of_mode() {
         ModeType::FSECompressed => {
+            vhit!(seq_of_fse);
             let bytes = scratch.offsets.build_decoder(of_source, OF_MAX_LOG)?;
             vprintln!("Updating of table");
             vprintln!("Used bytes: {}", bytes);
@@ -348,6 +355,7 @@ fn maybe_update_fse_tables(
         }
         ModeType::RLE => {
             vprintln!("Use RLE of table");
+            vhit!(seq_of_rle);
             if of_source.is_empty() {
                 return Err(DecodeSequenceError::MissingByteForRleOfTable);
             }
@@ -359,6 +367,7 @@ fn maybe_update_fse_tables(
         }
         ModeType::Predefined => {
             vprintln!("Use predefined of table");
+            vhit!(seq_of_predefined);
             scratch.offsets.build_from_probabilities(
                 OF_DEFAULT_ACC_LOG,
                 &Vec::from(&OFFSET_DEFAULT_DISTRIBUTION[..]),
@@ -367,6 +376,7 @@ fn maybe_update_fse_tables(
         }
         ModeType::Repeat => {
             vprintln!("Repeat of table");
+            vhit!(seq_of_repeat);
             /* Nothing to do */
         }
     };
@@ -375,6 +385,7 @@ fn maybe_update_fse_tables(
 
     match modes.ml_mode() {
         ModeType::FSECompressed => {
+            vhit!(seq_ml_fse);
             let bytes = scratch.match_lengths.build_decoder(ml_source, ML_MAX_LOG)?;
             bytes_read += bytes;
             vprintln!("Updating ml table");
@@ -383,6 +394,7 @@ fn maybe_update_fse_tables(
         }
         ModeType::RLE => {
             vprintln!("Use RLE ml table");
+            vhit!(seq_ml_rle);
             if ml_source.is_empty() {
                 return Err(DecodeSequenceError::MissingByteForRleMlTable);
             }
@@ -394,6 +406,7 @@ fn maybe_update_fse_tables(
         }
         ModeType::Predefined => {
             vprintln!("Use predefined ml table");
+            vhit!(seq_ml_predefined);
             scratch.match_lengths.build_from_probabilities(
                 ML_DEFAULT_ACC_LOG,
                 &Vec::from(&MATCH_LENGTH_DEFAULT_DISTRIBUTION[..]),
@@ -402,6 +415,7 @@ fn maybe_update_fse_tables(
         }
         ModeType::Repeat => {
             vprintln!("Repeat ml table");
+            vhit!(seq_ml_repeat);
             /* Nothing to do */
         }
     };
@@ -484,4 +498,36 @@ fn test_ll_default() {
     assert!(table.decode[59].symbol == 24);
     assert!(table.decode[59].num_bits == 5);
     assert!(table.decode[59].base_line == 32);
+}
+
+/// Verification hooks: access to the private lookup functions and the predefined tables
+#[cfg(feature = "verif_hooks")]
+pub mod verif_hooks {
+    use super::*;
+
+    pub fn lookup_ll_code(code: u8) -> (u32, u8) {
+        super::lookup_ll_code(code)
+    }
+
+    pub fn lookup_ml_code(code: u8) -> (u32, u8) {
+        super::lookup_ml_code(code)
+    }
+
+    /// The (ll, of, ml) tables the decoder uses for a block that selects the predefined mode for all three
+    pub fn predefined_tables() -> (
+        crate::fse::FSETable,
+        crate::fse::FSETable,
+        crate::fse::FSETable,
+    ) {
+        let mut header = SequencesHeader::new();
+        // one sequence, all modes predefined
+        header.parse_from_header(&[1, 0]).unwrap();
+        let mut scratch = FSEScratch::new();
+        maybe_update_fse_tables(&header, &[], &mut scratch).unwrap();
+        (
+            scratch.literal_lengths,
+            scratch.offsets,
+            scratch.match_lengths,
+        )
+    }
 }
